@@ -9,7 +9,7 @@ import os
 
 KINDS = {
     "format_str": ("raise", "garbage", "truncated", "exit"),
-    "sp_run": ("raise", "nonzero", "garbage", "truncated", "badutf8", "exit"),
+    "sp_run": ("raise", "nonzero", "killed", "garbage", "truncated", "badutf8", "exit"),
     "generate_tokens": ("raise", "exit"),
     "read_text": ("raise", "exit"),
     "rename": ("raise", "exit_before", "exit_after"),
@@ -80,6 +80,9 @@ def make(target=None, counts_file=".counts.json"):
             r = real_run(*a, **kw)
             if k == "nonzero":
                 return subprocess.CompletedProcess(r.args, 1, stdout=b"", stderr=b"formatter crashed (injected)\n")
+            if k == "killed":
+                # the formatter died from a signal after writing a part of its output
+                return subprocess.CompletedProcess(r.args, -9, stdout=r.stdout[: max(1, len(r.stdout) // 2)], stderr=b"")
             if k == "garbage":
                 return subprocess.CompletedProcess(r.args, 0, stdout=b"def (:\n  ]]]\n", stderr=b"")
             if k == "truncated":
